@@ -208,6 +208,24 @@ def run(ctx):
     if chi > 256 + 12 * 23:
         ctx.violation("oracle", {"call": "one_sample(seed=None)", "issue": "fresh unseeded calls do not spread uniformly over the 256 sign vectors",
                                  "distinct": len(signs), "chi2_255dof": chi, "trials": tr}, site="get_prng")
+    # ---- plain integer seeds handed straight to the helpers (each call builds its own SHA256(seed)): over many seeds the *joint*
+    #      outcome must still spread over the whole admissible set (a seed re-used per row / per stratum couples the parts)
+    m23 = np.array([[1, 2, 3], [4, 5, 6]]); x5 = np.array([1, 2, 3, 4, 5]); g5 = np.array([1, 1, 2, 2, 2])
+    int_helpers = {"permute_rows": (lambda sd: tuple(map(tuple, utils.permute_rows(m23, sd).tolist())), 36),
+                   "permute_within_groups": (lambda sd: tuple(utils.permute_within_groups(x5, g5, sd).tolist()), 12),
+                   "permute": (lambda sd: tuple(utils.permute(np.array([1, 2, 3]), sd).tolist()), 6)}
+    for hname, (fnc, K) in int_helpers.items():
+        trials = ctx.n(40, 200) * K
+        cnt = Counter()
+        for i in range(trials):
+            rr = guarded(fnc, int(ctx.seed * 1000003 + i) if i % 3 else np.int64(ctx.seed * 1000003 + i))
+            cnt[rr[1] if rr[0] == "ok" else ("error", str(rr[1:])[:60])] += 1
+        chi = sum((v - trials / K) ** 2 / (trials / K) for v in cnt.values()) + (K - len(cnt)) * trials / K
+        ctx.case(("int-seeds", hname), True); ctx.count("helpers-with-plain-int-seeds")
+        if len(cnt) != K or chi > 8 * K + 80:
+            ctx.violation("oracle", {"helper": hname, "issue": "over plain integer seeds the joint outcome does not spread uniformly over the admissible set",
+                                     "distinct_outcomes": len(cnt), "admissible": K, "chi2": chi, "trials": trials,
+                                     "seeds": f"{ctx.seed * 1000003} + i, i < {trials}"}, site=hname)
     # ---- chi-square over real seeds (support only; generous threshold: false alarm probability < 1e-9)
     for gen in ("sha", "rs"):
         cnt = Counter()
